@@ -225,6 +225,18 @@ def preimage_lengths(ctx, case):
             ctx.violation({'lock': kind, 'block': 'preimage lengths', 'clause': 'lock from digest equals lock from preimage'},
                           f'len {ln} hash size {hs}')
         wk = matching_witness(kind, None)
+        # a lock made from a digest that differs from the real one in a single byte (every position) is not claimed by the real preimage
+        if ln in (1, 32):
+            for pos in range(len(dg)):
+                n += 1
+                dg2 = dg[:pos] + bytes([dg[pos] ^ 0x01]) + dg[pos + 1:]
+                lock2 = fn(pk['receiver'], pk['refund'], digest=dg2, timeout=1000, **kw).bytes
+                t = T0 + 5
+                env.Clock.now = t
+                w = build_witness(wk, sk, 'receiver', pre['right'], sf)
+                ctx.state(('near-miss digest', kind, ln, hs, pos))
+                judge(ctx, w, lock2, {**sf, 'timestamp': t}, False, {'lock': kind, 'block': 'preimage lengths', 'digest': 'one byte off'},
+                      f'{kind} hash size {hs}: lock from the digest with byte {pos} changed, claimed with the real preimage', t)
         for choice in ('right', 'wrong'):
             if ln == 1 and choice == 'wrong' and False:
                 continue
